@@ -52,6 +52,12 @@ def run_shard(shard, tier, seed, wd, res):
             lens = sorted(set([0, 1, b - 1, b, b + 1, 2 * b - 1, 2 * b, 2 * b + 1, 3 * b, 48, 64, 96, 128, 192, 256, 254 * b, 254 * b + 1,
                                255 * b - 1, 255 * b, 255 * b + 1, 255 * b + 2, 256 * b, 300 * b, 65535 if 65535 <= 255 * b else 255 * b + 7]
                               + [rng.randrange(0, 255 * b) for _ in range(20 if q else 200)]))
+            # requests far beyond the limit (every one must abort): just above 2^16 / 2^32 where a narrowed copy of the
+            # length would look small again, and at the top of the usize range where rounding up to blocks wraps
+            far = [65536, 65537, 65536 + b, 65536 + 100, 65536 + 255 * b, 2 * 65536 + 100, 3 * 65536 + b, 1 << 20, (1 << 24) + 5,
+                   1 << 32, (1 << 32) + 1, (1 << 32) + b, (1 << 32) + 255 * b, (1 << 48) + 1, 1 << 63, (1 << 63) + b]
+            far += [(1 << 64) - d for d in (1, 2, b - 1, b, b + 1, 2 * b, 255 * b, rng.randrange(1, b))]
+            lens += [n - (1 << 64) if n >= (1 << 63) else n for n in far]
         else:
             lens = sorted(set([0, 1, 31, 32, 33, 64, 128, 135, 136, 137, 167, 168, 169, 255, 256, 257, 1000, 8160, 16320, 32767, 32768, 65534, 65535]
                               + [rng.randrange(0, 65536) for _ in range(20 if q else 200)]))
@@ -113,6 +119,11 @@ def run_shard(shard, tier, seed, wd, res):
 
 
 def lclass(n, b):
+    n %= 1 << 64
+    if b and n >= (1 << 64) - b:
+        return "ell wraps"
+    if b and n > 65535:
+        return "len>=2^%d" % (16 if n < (1 << 32) else 32 if n < (1 << 63) else 63)
     if b:
         ell = -(-n // b)
         return "ell=%d%s" % (ell if ell in (0, 1, 2, 254, 255, 256) else -1, "" if n % b == 0 else "+part")
